@@ -508,46 +508,15 @@ theorem hasEdge_absG (s : State) (st : Nat → Nat) (ck : Nat) (a b : Nat) : CGS
     rcases hc with hc | ⟨h1, h2, h3⟩
     · exact Or.inl hc
     · exact Or.inr ⟨⟨h1, h2⟩, h3⟩
-/-! ### the specification relation for *all* calls -/
 
-/-- the walk mode as the model reads it: `2` both lists, `1` incoming, anything else outgoing -/
-def normMode (m : Nat) : CGS.Mode := if m = 2 then 2 else if m = 1 then 1 else 0
+/-! ### the specification relation for *all* calls
 
-/-- the element following `e` in `l` -/
-def spNext (l : List Nat) (e : Nat) : Option Nat := (l.dropWhile (· != e)).tail.head?
-
-/-- `SpecAccepts` extended by the calls stage 1 left out: `remove_node` / `remove_edge` (the
-specification's `swap_remove` renumbering, `remove_node` dropping the incident edges in the reference
-order), `retain_nodes` / `retain_edges`, `filter_map`, the conversion through `StableGraph`, detached
-walkers (answers as for `neighbors*`, the optional weight bump applied to every listed edge) and the
-raw chain accessors `first_edge` / `next_edge` (head / successor in the most-recently-added-first
-list).  On every other call it *is* `SpecAccepts`. -/
-def SpecAccepts2 (sp : CGS.Spec) : Op → Out → CGS.Spec → Prop
-  | .removeNode a, o, sp' => o = .optNat sp.nodes[a]? ∧ sp' = CGS.removeNode sp a
-  | .removeEdge e, o, sp' => o = .optNat (sp.edges[e]?.map (·.weight)) ∧ sp' = CGS.removeEdge sp e
-  | .retainNodes mask bump, o, sp' => o = .unit ∧ sp' = CGS.retainNodes mask bump sp.nodes.length sp
-  | .retainEdges mask bump, o, sp' => o = .unit ∧ sp' = CGS.retainEdges mask bump sp.edges.length sp
-  | .filterMap nm em dn de, o, sp' => o = .unit ∧ sp' = CGS.filterMap sp nm em dn de
-  | .rebuild, o, sp' => o = .unit ∧ sp' = CGS.filterMap sp [] [] 0 0
-  | .walk a mode bump, o, sp' =>
-    ∃ l, o = .pairs l ∧ ListAcc (CGS.nbrOrdered sp (normMode mode)) l (CGS.nbr sp a (normMode mode)) ∧
-      sp' = (if bump then (CGS.nbr sp a (normMode mode)).foldl (fun g p => CGS.bumpEdge g p.1) sp else sp)
-  | .firstEdge a k, o, sp' =>
-    sp' = sp ∧ o = .optNat (if a < sp.nodes.length then (if k then CGS.inEdges sp a else CGS.outEdges sp a).head? else none)
-  | .nextEdge e k, o, sp' =>
-    sp' = sp ∧ o = .optNat (if e < sp.edges.length then
-      spNext (if k then CGS.inEdges sp (CGS.edgeAt sp e).tgt else CGS.outEdges sp (CGS.edgeAt sp e).src) e else none)
-  | op, o, sp' => SpecAccepts sp op o sp'
+`normMode`, `spNext`, `SpecAccepts2` and `SpecRun2` are defined in `Spec/CompactGraphAccepts.lean`
+(the trusted specification lives under `Spec/`); here are the lemmas about them. -/
 
 theorem specAccepts2_of_core {sp sp' : CGS.Spec} {op : Op} {o : Out} (hc : isCore op = true)
     (h : SpecAccepts sp op o sp') : SpecAccepts2 sp op o sp' := by
   cases op <;> simp only [isCore] at hc <;> first | exact h | cases hc
-
-/-- runs of the extended specification relation -/
-inductive SpecRun2 : CGS.Spec → List Op → List Out → CGS.Spec → Prop
-  | nil (sp : CGS.Spec) : SpecRun2 sp [] [] sp
-  | cons {sp sp1 sp2 : CGS.Spec} {op : Op} {o : Out} {ops : List Op} {os : List Out} :
-      SpecAccepts2 sp op o sp1 → SpecRun2 sp1 ops os sp2 → SpecRun2 sp (op :: ops) (o :: os) sp2
 
 /-- a stage-1 run is a run of the extended relation -/
 theorem specRun2_of_specRun {sp sp' : CGS.Spec} {ops : List Op} {os : List Out}
